@@ -1,9 +1,806 @@
-use crate::mc::Eng;
+//! C08 — device update projects measured states onto the mechanical constraint.
+//! C13 — one-degree-of-freedom devices relay the newest command to every terminal, scaled.
+//! (C03 re-uses both engines with only the timestamp verdicts.)
+use crate::env::*;
+use crate::mc::*;
+use crate::refmodels::*;
 use crate::Ctx;
-pub fn run(_ctx: &Ctx, _second: bool) -> Vec<Eng> {
-    vec![]
+use rrtk::devices::*;
+use rrtk::*;
+use std::cell::RefCell;
+
+pub type Term<'a> = RefCell<Terminal<'a, E>>;
+
+pub trait DevIf<'a> {
+    fn term(&self, i: usize) -> &'a Term<'a>;
+    fn upd(&mut self) -> NothingOrError<E>;
+}
+impl<'a> DevIf<'a> for Invert<'a, E> {
+    fn term(&self, i: usize) -> &'a Term<'a> {
+        if i == 0 {
+            self.get_terminal_1()
+        } else {
+            self.get_terminal_2()
+        }
+    }
+    fn upd(&mut self) -> NothingOrError<E> {
+        self.update()
+    }
+}
+impl<'a> DevIf<'a> for GearTrain<'a, E> {
+    fn term(&self, i: usize) -> &'a Term<'a> {
+        if i == 0 {
+            self.get_terminal_1()
+        } else {
+            self.get_terminal_2()
+        }
+    }
+    fn upd(&mut self) -> NothingOrError<E> {
+        self.update()
+    }
+}
+impl<'a, const N: usize> DevIf<'a> for Axle<'a, N, E> {
+    fn term(&self, i: usize) -> &'a Term<'a> {
+        self.get_terminal(i)
+    }
+    fn upd(&mut self) -> NothingOrError<E> {
+        self.update()
+    }
+}
+impl<'a> DevIf<'a> for Differential<'a, E> {
+    fn term(&self, i: usize) -> &'a Term<'a> {
+        match i {
+            0 => self.get_side_1(),
+            1 => self.get_side_2(),
+            _ => self.get_sum(),
+        }
+    }
+    fn upd(&mut self) -> NothingOrError<E> {
+        self.update()
+    }
 }
 
-pub fn run_time_mode(_ctx: &Ctx) -> Vec<Eng> {
-    vec![]
+#[derive(Clone, Copy, Debug, PartialEq)]
+pub enum Kind {
+    Invert,
+    Gear(f32),
+    GearQ(f32), // constructed through with_ratio(Quantity)
+    Axle(usize),
+    Diff(u8), // 0 = distrust side1, 1 = side2, 2 = sum, 3 = equal
+}
+impl Kind {
+    pub fn n(&self) -> usize {
+        match self {
+            Kind::Invert | Kind::Gear(_) | Kind::GearQ(_) => 2,
+            Kind::Axle(n) => *n,
+            Kind::Diff(_) => 3,
+        }
+    }
+    fn name(&self) -> String {
+        match self {
+            Kind::Invert => "invert".into(),
+            Kind::Gear(_) | Kind::GearQ(_) => "gear".into(),
+            Kind::Axle(_) => "axle".into(),
+            Kind::Diff(m) => format!("differential-{}", ["distrust-side1", "distrust-side2", "distrust-sum", "equal"][*m as usize]),
+        }
+    }
+}
+pub fn make_dev<'a>(k: Kind) -> Box<dyn DevIf<'a> + 'a> {
+    match k {
+        Kind::Invert => Box::new(Invert::new()),
+        Kind::Gear(r) => Box::new(GearTrain::with_ratio_raw(r)),
+        Kind::GearQ(r) => Box::new(GearTrain::with_ratio(Quantity::dimensionless(r))),
+        Kind::Axle(0) => Box::new(Axle::<0, E>::new()),
+        Kind::Axle(1) => Box::new(Axle::<1, E>::new()),
+        Kind::Axle(2) => Box::new(Axle::<2, E>::new()),
+        Kind::Axle(3) => Box::new(Axle::<3, E>::new()),
+        Kind::Axle(4) => Box::new(Axle::<4, E>::new()),
+        Kind::Axle(5) => Box::new(Axle::<5, E>::new()),
+        Kind::Axle(6) => Box::new(Axle::<6, E>::new()),
+        Kind::Axle(_) => unreachable!(),
+        Kind::Diff(0) => Box::new(Differential::with_distrust(DifferentialDistrust::Side1)),
+        Kind::Diff(1) => Box::new(Differential::with_distrust(DifferentialDistrust::Side2)),
+        Kind::Diff(2) => Box::new(Differential::with_distrust(DifferentialDistrust::Sum)),
+        Kind::Diff(_) => Box::new(Differential::new()),
+    }
+}
+
+#[derive(Clone, Copy, PartialEq, Debug)]
+pub enum Mode {
+    State,
+    Command,
+}
+const SA: State = State { position: 1.0, velocity: -2.0, acceleration: 0.5 };
+const SB: State = State { position: -6.0, velocity: 3.0, acceleration: 8.0 };
+const CA: Command = Command::Velocity(3.0);
+const CB: Command = Command::Position(-5.0);
+
+/// per-terminal option of a round: 0 nothing; 1 A newest (distinct per terminal); 2 B newest;
+/// 3 A at the round's shared time (ties); 4 B older than the previous round
+pub const NOPT: usize = 5;
+fn opt_time(round: usize, term: usize, opt: usize) -> i64 {
+    let base = -25 + 10 * round as i64;
+    match opt {
+        1 | 2 => base + 1 + term as i64,
+        3 => base,
+        _ => base - 12,
+    }
+}
+fn opt_show(mode: Mode, round: usize, term: usize, opt: usize) -> String {
+    if opt == 0 {
+        return "-".into();
+    }
+    let what = match (mode, opt) {
+        (Mode::State, 1) | (Mode::State, 3) => "sA",
+        (Mode::State, _) => "sB",
+        (Mode::Command, 1) | (Mode::Command, 3) => "cA",
+        (Mode::Command, _) => "cB",
+    };
+    format!("{}@{}", what, opt_time(round, term, opt))
+}
+
+#[derive(Clone, Debug, Default, PartialEq, Eq, Hash)]
+pub struct RoundObs {
+    reads_before: Vec<Obs>,
+    own_before: Vec<Obs>,
+    own_after: Vec<Obs>,
+    reads_after: Vec<Obs>,
+    ext_own_before: Vec<Obs>,
+    ext_own_after: Vec<Obs>,
+    ext_reads_after: Vec<Obs>,
+    upd: u32,
+}
+
+fn read_s(t: &Term) -> Obs {
+    obs(&<Terminal<E> as Getter<State, E>>::get(&t.borrow()))
+}
+fn read_c(t: &Term) -> Obs {
+    obs(&<Terminal<E> as Getter<Command, E>>::get(&t.borrow()))
+}
+fn own_s(t: &Term) -> Obs {
+    obs::<State>(&Ok(<Terminal<E> as Settable<Datum<State>, E>>::get_last_request(&t.borrow())))
+}
+fn own_c(t: &Term) -> Obs {
+    obs::<Command>(&Ok(<Terminal<E> as Settable<Datum<Command>, E>>::get_last_request(&t.borrow())))
+}
+
+/// Execute a sequence of rounds on a real device. `mask` says which device terminals are
+/// connected to an external terminal (data then enters through the external one).
+pub fn run_rounds(kind: Kind, mask: u32, rounds: &[Vec<usize>], mode: Mode) -> Vec<RoundObs> {
+    let n = kind.n();
+    let xs: Vec<Term> = (0..n).map(|_| Terminal::new()).collect();
+    let mut dev = make_dev(kind);
+    for i in 0..n {
+        if mask >> i & 1 == 1 {
+            connect(dev.term(i), &xs[i]);
+        }
+    }
+    let mut out = Vec::with_capacity(rounds.len());
+    for (k, opts) in rounds.iter().enumerate() {
+        for i in 0..n {
+            let o = opts[i];
+            if o == 0 {
+                continue;
+            }
+            let target: &Term = if mask >> i & 1 == 1 { &xs[i] } else { dev.term(i) };
+            let t = Time(opt_time(k, i, o));
+            match mode {
+                Mode::State => target.borrow_mut().set(Datum::new(t, if o == 1 || o == 3 { SA } else { SB })).unwrap(),
+                Mode::Command => target.borrow_mut().set(Datum::new(t, if o == 1 || o == 3 { CA } else { CB })).unwrap(),
+            }
+        }
+        let rd = |t: &Term| if mode == Mode::State { read_s(t) } else { read_c(t) };
+        let ow = |t: &Term| if mode == Mode::State { own_s(t) } else { own_c(t) };
+        let mut ro = RoundObs::default();
+        for i in 0..n {
+            ro.reads_before.push(rd(dev.term(i)));
+            ro.own_before.push(ow(dev.term(i)));
+            ro.ext_own_before.push(ow(&xs[i]));
+        }
+        ro.upd = obs_unit(&dev.upd());
+        for i in 0..n {
+            ro.own_after.push(ow(dev.term(i)));
+            ro.reads_after.push(rd(dev.term(i)));
+            ro.ext_own_after.push(ow(&xs[i]));
+            ro.ext_reads_after.push(rd(&xs[i]));
+        }
+        out.push(ro);
+    }
+    out
+}
+
+#[derive(Clone, Copy)]
+enum Want {
+    Unchanged,
+    Val(i64, [Tr; 3]),
+}
+fn trs(o: &Obs) -> [Tr; 3] {
+    [Tr::exact(o.f(0)), Tr::exact(o.f(1)), Tr::exact(o.f(2))]
+}
+fn map3(a: [Tr; 3], f: impl Fn(Tr) -> Tr) -> [Tr; 3] {
+    [f(a[0]), f(a[1]), f(a[2])]
+}
+fn zip3(a: [Tr; 3], b: [Tr; 3], f: impl Fn(Tr, Tr) -> Tr) -> [Tr; 3] {
+    [f(a[0], b[0]), f(a[1], b[1]), f(a[2], b[2])]
+}
+
+/// Least-squares projection of the reads onto the device's constraint.
+fn project(kind: Kind, r: &[Obs]) -> Vec<Want> {
+    let n = kind.n();
+    let mut w = vec![Want::Unchanged; n];
+    let some = |i: usize| r[i].is_some();
+    match kind {
+        Kind::Invert => match (some(0), some(1)) {
+            (true, true) => {
+                let t = r[0].time.max(r[1].time);
+                let m = zip3(trs(&r[0]), trs(&r[1]), |a, b| a.sub(b).div(Tr::exact(2.0)));
+                w[0] = Want::Val(t, m);
+                w[1] = Want::Val(t, map3(m, |x| x.neg()));
+            }
+            (true, false) => w[1] = Want::Val(r[0].time, map3(trs(&r[0]), |x| x.neg())),
+            (false, true) => w[0] = Want::Val(r[1].time, map3(trs(&r[1]), |x| x.neg())),
+            _ => {}
+        },
+        Kind::Gear(rho) | Kind::GearQ(rho) => {
+            let q = Tr::exact(rho);
+            match (some(0), some(1)) {
+                (true, true) => {
+                    let t = r[0].time.max(r[1].time);
+                    let d = q.mul(q).add(Tr::exact(1.0));
+                    let s = zip3(trs(&r[0]), trs(&r[1]), |a, b| a.add(b.mul(q)));
+                    w[0] = Want::Val(t, map3(s, |x| x.div(d)));
+                    w[1] = Want::Val(t, map3(s, |x| x.mul(q).div(d)));
+                }
+                (true, false) => w[1] = Want::Val(r[0].time, map3(trs(&r[0]), |x| x.mul(q))),
+                (false, true) => w[0] = Want::Val(r[1].time, map3(trs(&r[1]), |x| x.div(q))),
+                _ => {}
+            }
+        }
+        Kind::Axle(_) => {
+            let pres: Vec<usize> = (0..n).filter(|&i| some(i)).collect();
+            if !pres.is_empty() {
+                let t = pres.iter().map(|&i| r[i].time).max().unwrap();
+                let mut s = [Tr::exact(0.0); 3];
+                for &i in &pres {
+                    s = zip3(s, trs(&r[i]), |a, b| a.add(b));
+                }
+                let c = Tr::exact(pres.len() as f32);
+                let m = map3(s, |x| x.div(c));
+                for i in 0..n {
+                    w[i] = Want::Val(t, m);
+                }
+            }
+        }
+        Kind::Diff(mode) => {
+            let (x, y, z) = (0usize, 1usize, 2usize);
+            match mode {
+                0 => {
+                    if some(z) && some(y) {
+                        w[x] = Want::Val(r[z].time.max(r[y].time), zip3(trs(&r[z]), trs(&r[y]), |a, b| a.sub(b)));
+                    }
+                }
+                1 => {
+                    if some(z) && some(x) {
+                        w[y] = Want::Val(r[z].time.max(r[x].time), zip3(trs(&r[z]), trs(&r[x]), |a, b| a.sub(b)));
+                    }
+                }
+                2 => {
+                    if some(x) && some(y) {
+                        w[z] = Want::Val(r[x].time.max(r[y].time), zip3(trs(&r[x]), trs(&r[y]), |a, b| a.add(b)));
+                    }
+                }
+                _ => {
+                    if some(x) && some(y) && some(z) {
+                        let t = r[x].time.max(r[y].time).max(r[z].time);
+                        let (a, b, c) = (trs(&r[x]), trs(&r[y]), trs(&r[z]));
+                        let two = Tr::exact(2.0);
+                        let three = Tr::exact(3.0);
+                        let mut ws = [[Tr::exact(0.0); 3]; 3];
+                        for j in 0..3 {
+                            ws[0][j] = a[j].mul(two).sub(b[j]).add(c[j]).div(three);
+                            ws[1][j] = a[j].neg().add(b[j].mul(two)).add(c[j]).div(three);
+                            ws[2][j] = a[j].add(b[j]).add(c[j].mul(two)).div(three);
+                        }
+                        w[x] = Want::Val(t, ws[0]);
+                        w[y] = Want::Val(t, ws[1]);
+                        w[z] = Want::Val(t, ws[2]);
+                    }
+                }
+            }
+        }
+    }
+    w
+}
+
+fn describe(kind: Kind, mask: u32, rounds: &[Vec<usize>], mode: Mode) -> String {
+    format!(
+        "{:?} connected-mask {:#b} rounds [{}]",
+        kind,
+        mask,
+        rounds
+            .iter()
+            .enumerate()
+            .map(|(k, o)| format!("({})", o.iter().enumerate().map(|(i, &x)| opt_show(mode, k, i, x)).collect::<Vec<_>>().join(" ")))
+            .collect::<Vec<_>>()
+            .join("; ")
+    )
+}
+
+/// factor that maps a command issued at side i to side j (None: device does not relay)
+fn cmd_factor(kind: Kind, i: usize, j: usize) -> Option<(f64, bool)> {
+    // (factor, divide) : value_j = value_i * factor, or value_i / factor when divide
+    match kind {
+        Kind::Invert => Some((if i == j { 1.0 } else { -1.0 }, false)),
+        Kind::Gear(r) | Kind::GearQ(r) => {
+            if i == j {
+                Some((1.0, false))
+            } else if i == 0 {
+                Some((r as f64, false))
+            } else {
+                Some((r as f64, true))
+            }
+        }
+        Kind::Axle(_) => Some((1.0, false)),
+        Kind::Diff(_) => None,
+    }
+}
+
+pub fn judge_rounds(kind: Kind, mask: u32, rounds: &[Vec<usize>], mode: Mode, time_only: bool, e: &mut Eng) -> u64 {
+    let n = kind.n();
+    let nr = rounds.len();
+    let res = match guard(|| run_rounds(kind, mask, rounds, mode)) {
+        Ok(r) => r,
+        Err(m) => {
+            if !time_only {
+                e.violation(&format!("device:{}:panic", kind.name()), nr, || format!("{} panicked: {}", describe(kind, mask, rounds, mode), m));
+            }
+            return nr as u64;
+        }
+    };
+    e.outcome(h64(&(format!("{:?}", kind), mask, &res)));
+    let mut nontrivial = false;
+    for (k, ro) in res.iter().enumerate() {
+        e.checks += 1;
+        let viol = |e: &mut Eng, cls: &str, what: String| {
+            if time_only && cls != "time" {
+                return;
+            }
+            e.violation(&format!("device:{}:{}:{}", kind.name(), if mode == Mode::State { "state" } else { "command" }, cls), k + 1, || {
+                format!("{} :: round {}: {}", describe(kind, mask, &rounds[..=k], mode), k, what)
+            });
+        };
+        if ro.upd != 0 {
+            viol(e, "update-error", format!("update() returned error code {}", ro.upd - 2));
+            return nr as u64;
+        }
+        // external terminals' own slots are never written by a device
+        if ro.ext_own_before != ro.ext_own_after {
+            viol(e, "external-slot-written", format!("an external terminal's own slot changed: {:?} -> {:?}", ro.ext_own_before, ro.ext_own_after));
+            return nr as u64;
+        }
+        match mode {
+            Mode::State => {
+                let want = project(kind, &ro.reads_before);
+                if ro.reads_before.iter().filter(|x| x.is_some()).count() >= 2 {
+                    nontrivial = true;
+                }
+                for i in 0..n {
+                    let got = ro.own_after[i];
+                    match want[i] {
+                        Want::Unchanged => {
+                            if got != ro.own_before[i] {
+                                viol(e, "wrote-uninformed", format!("terminal {} own slot changed from {} to {} although the reads {:?} give it nothing new", i, ro.own_before[i].show(), got.show(), ro.reads_before.iter().map(|x| x.show()).collect::<Vec<_>>()));
+                                return nr as u64;
+                            }
+                        }
+                        Want::Val(t, v) => {
+                            let val_ok = got.is_some() && (0..3).all(|j| v[j].agrees(got.f(j), 8.0));
+                            if !val_ok {
+                                viol(e, "projection", format!("reads {:?}: terminal {} own slot is {} but the least-squares projection onto the constraint is [{}, {}, {}] at time {}", ro.reads_before.iter().map(|x| x.show()).collect::<Vec<_>>(), i, got.show(), v[0].show(), v[1].show(), v[2].show(), t));
+                                return nr as u64;
+                            }
+                            if got.time != t {
+                                viol(e, "time", format!("reads {:?}: terminal {} own slot is stamped {} but the newest contributing time is {}", ro.reads_before.iter().map(|x| x.show()).collect::<Vec<_>>(), i, got.time, t));
+                                return nr as u64;
+                            }
+                        }
+                    }
+                }
+            }
+            Mode::Command => {
+                if let Kind::Diff(_) = kind {
+                    if ro.own_after != ro.own_before || ro.reads_after != ro.reads_before {
+                        viol(e, "differential-altered-command", format!("own command slots {:?} -> {:?}", ro.own_before, ro.own_after));
+                        return nr as u64;
+                    }
+                    continue;
+                }
+                let pres: Vec<usize> = (0..n).filter(|&i| ro.reads_before[i].is_some()).collect();
+                if pres.is_empty() {
+                    if ro.own_after != ro.own_before {
+                        viol(e, "wrote-uninformed", "no command anywhere but an own command slot changed".to_string());
+                        return nr as u64;
+                    }
+                    continue;
+                }
+                if pres.len() >= 2 {
+                    nontrivial = true;
+                }
+                let tau = pres.iter().map(|&i| ro.reads_before[i].time).max().unwrap();
+                // newest issued commands: what each device terminal reads, plus (ties) a command of the
+                // same newest time sitting in the own slot of the external terminal on that side
+                let mut issuers: Vec<(usize, Obs)> = pres.iter().cloned().filter(|&i| ro.reads_before[i].time == tau).map(|i| (i, ro.reads_before[i])).collect();
+                for i in 0..n {
+                    let x = ro.ext_own_before[i];
+                    if mask >> i & 1 == 1 && x.is_some() && x.time == tau {
+                        issuers.push((i, x));
+                    }
+                }
+                let check = |who: &str, j: usize, got: Obs, e: &mut Eng| -> bool {
+                    let mut val_ok = false;
+                    for &(i, src) in &issuers {
+                        if let Some((f, div)) = cmd_factor(kind, i, j) {
+                            let expect = if div { src.f(0) as f64 / f } else { src.f(0) as f64 * f };
+                            let tol = 2.0 * (f32::EPSILON as f64) * expect.abs();
+                            if got.is_some() && got.bits[1] == src.bits[1] && (got.f(0) as f64 - expect).abs() <= tol {
+                                val_ok = true;
+                            }
+                        }
+                    }
+                    if !val_ok {
+                        viol(e, "relay", format!("command reads before update {:?} (newest time {}, issuer side(s) {:?}) but after update {} {} reads {}", ro.reads_before.iter().map(|x| x.show()).collect::<Vec<_>>(), tau, issuers.iter().map(|x| x.0).collect::<Vec<_>>(), who, j, got.show()));
+                        return false;
+                    }
+                    if got.time != tau {
+                        viol(e, "time", format!("command reads before update {:?}: after update {} {} reads {} but the newest issued command has time {}", ro.reads_before.iter().map(|x| x.show()).collect::<Vec<_>>(), who, j, got.show(), tau));
+                        return false;
+                    }
+                    true
+                };
+                for j in 0..n {
+                    if !check("device terminal", j, ro.reads_after[j], e) {
+                        return nr as u64;
+                    }
+                    if mask >> j & 1 == 1 && !check("external terminal", j, ro.ext_reads_after[j], e) {
+                        return nr as u64;
+                    }
+                }
+            }
+        }
+    }
+    if nontrivial {
+        e.nontrivial += 1;
+    }
+    nr as u64
+}
+
+fn all_masks(n: usize) -> Vec<u32> {
+    (0..(1u32 << n)).collect()
+}
+
+/// sequences of exactly `depth` rounds; a round = one option per terminal
+fn explore(e: &mut Eng, kind: Kind, depth: usize, mode: Mode, time_only: bool, budget: Budget) {
+    let n = kind.n();
+    if n == 0 {
+        // an axle without terminals: update must simply succeed
+        let r = guard(|| {
+            let mut d = make_dev(kind);
+            (obs_unit(&d.upd()), obs_unit(&d.upd()))
+        });
+        e.executions += 1;
+        e.states += 1;
+        e.transitions += 2;
+        if r != Ok((0, 0)) && !time_only {
+            e.violation("device:axle:empty", 1, || format!("Axle<0>::update gave {:?}", r));
+        }
+        return;
+    }
+    let per_round = ipow(NOPT as u64, n) as usize;
+    for mask in all_masks(n) {
+        par_seqs(e, per_round, depth, budget, |seq, e| {
+            let rounds: Vec<Vec<usize>> = seq
+                .iter()
+                .map(|&code| {
+                    let mut o = vec![0usize; n];
+                    decode(code as u64, NOPT as u64, &mut o);
+                    o
+                })
+                .collect();
+            let a = judge_rounds(kind, mask, &rounds, mode, time_only, e);
+            e.sample(|| describe(kind, mask, &rounds, mode));
+            a
+        });
+    }
+}
+
+/// 8-round sequences with at most k non-empty rounds (deviation-bounded form of "up to 8 rounds")
+fn explore_sparse(e: &mut Eng, kind: Kind, k: usize, mode: Mode, time_only: bool, budget: Budget) {
+    let n = kind.n();
+    let per_round = ipow(NOPT as u64, n) as usize - 1;
+    let cases = deviation_cases(8, per_round, k);
+    for mask in all_masks(n) {
+        par_cases(e, &cases, budget, |c, e| {
+            let mut rounds: Vec<Vec<usize>> = vec![vec![0usize; n]; 8];
+            for &(p, a) in c {
+                let mut o = vec![0usize; n];
+                decode(a as u64 + 1, NOPT as u64, &mut o);
+                rounds[p as usize] = o;
+            }
+            e.executions += 1;
+            e.states += 1;
+            e.max_depth = e.max_depth.max(8);
+            e.transitions += judge_rounds(kind, mask, &rounds, mode, time_only, e);
+        });
+    }
+}
+
+fn gear_kinds() -> Vec<Kind> {
+    vec![Kind::Gear(1.0), Kind::Gear(-2.0), Kind::Gear(0.5), Kind::Gear(100.0), Kind::Gear(-0.01), Kind::GearQ(-2.0)]
+}
+
+fn tooth_lists(e: &mut Eng) {
+    let teeth = [10.0f32, 20.0, 45.0];
+    fn run<const N: usize>(list: [f32; N]) -> Obs {
+        let g = GearTrain::<E>::new(list);
+        g.get_terminal_1().borrow_mut().set(Datum::new(Time(3), State::new_raw(1.0, 2.0, -4.0))).unwrap();
+        let mut g = g;
+        g.update().unwrap();
+        own_s(g.get_terminal_2())
+    }
+    for n in 2..=6usize {
+        let total = ipow(3, n);
+        let mut idx = vec![0usize; n];
+        for code in 0..total {
+            decode(code, 3, &mut idx);
+            let l: Vec<f32> = idx.iter().map(|&i| teeth[i]).collect();
+            e.executions += 1;
+            e.states += 1;
+            e.transitions += 1;
+            e.checks += 1;
+            if l[0] != l[n - 1] {
+                e.nontrivial += 1;
+            }
+            let r = guard(|| match n {
+                2 => run::<2>([l[0], l[1]]),
+                3 => run::<3>([l[0], l[1], l[2]]),
+                4 => run::<4>([l[0], l[1], l[2], l[3]]),
+                5 => run::<5>([l[0], l[1], l[2], l[3], l[4]]),
+                _ => run::<6>([l[0], l[1], l[2], l[3], l[4], l[5]]),
+            });
+            let sign = if (n - 1) % 2 == 0 { 1.0f32 } else { -1.0 };
+            let ratio = Tr::exact(l[0]).div(Tr::exact(l[n - 1])).mul(Tr::exact(sign));
+            match r {
+                Err(m) => e.violation("device:gear:teeth-panic", n, || format!("teeth {:?}: {}", l, m)),
+                Ok(o) => {
+                    e.outcome(h64(&o));
+                    let want = [Tr::exact(1.0).mul(ratio), Tr::exact(2.0).mul(ratio), Tr::exact(-4.0).mul(ratio)];
+                    if !(o.is_some() && o.time == 3 && (0..3).all(|j| want[j].agrees(o.f(j), 8.0))) {
+                        e.violation("device:gear:teeth-ratio", n, || {
+                            format!("teeth {:?}: state (1,2,-4) on side 1 propagated to side 2 as {} but ratio first/last with sign (-1)^(gears-1) = {}", l, o.show(), ratio.show())
+                        });
+                    }
+                }
+            }
+        }
+    }
+    e.sample(|| "teeth [10,20,45]: ratio 10/45, sign + (3 gears)".to_string());
+}
+
+// ------------------------------------------------------------------ chains (C13)
+const CHAIN_KINDS: [Kind; 4] = [Kind::Invert, Kind::Gear(2.0), Kind::Gear(-0.5), Kind::Axle(2)];
+fn forward_factor(k: Kind) -> f64 {
+    match k {
+        Kind::Invert => -1.0,
+        Kind::Gear(r) => r as f64,
+        _ => 1.0,
+    }
+}
+/// Build a chain, issue one command per round at the left (0) or right (1) end, update the
+/// devices in order from the issuing end, and read every terminal.
+fn run_chain(kinds: &[Kind], ends: &[usize]) -> Vec<(Obs, Obs, Vec<Obs>)> {
+    let xl: Term = Terminal::new();
+    let xr: Term = Terminal::new();
+    let mut devs: Vec<Box<dyn DevIf<'_> + '_>> = kinds.iter().map(|&k| make_dev(k)).collect();
+    let m = devs.len();
+    connect(devs[0].term(0), &xl);
+    for i in 0..m - 1 {
+        connect(devs[i].term(1), devs[i + 1].term(0));
+    }
+    connect(devs[m - 1].term(1), &xr);
+    let mut out = Vec::new();
+    for (k, &end) in ends.iter().enumerate() {
+        let t = Time(-30 + 10 * k as i64);
+        let cmd = if k % 2 == 0 { Command::Velocity(3.0 + k as f32) } else { Command::Position(-(1.0 + k as f32)) };
+        if end == 0 {
+            xl.borrow_mut().set(Datum::new(t, cmd)).unwrap();
+            for d in devs.iter_mut() {
+                d.upd().unwrap();
+            }
+        } else {
+            xr.borrow_mut().set(Datum::new(t, cmd)).unwrap();
+            for d in devs.iter_mut().rev() {
+                d.upd().unwrap();
+            }
+        }
+        let mut inner = Vec::new();
+        for d in &devs {
+            inner.push(read_c(d.term(0)));
+            inner.push(read_c(d.term(1)));
+        }
+        out.push((read_c(&xl), read_c(&xr), inner));
+    }
+    out
+}
+
+fn chains(e: &mut Eng, max_len: usize, rounds: usize, budget: Budget) {
+    let mut all: Vec<Vec<Kind>> = Vec::new();
+    for len in 1..=max_len {
+        let mut idx = vec![0usize; len];
+        for code in 0..ipow(4, len) {
+            decode(code, 4, &mut idx);
+            all.push(idx.iter().map(|&i| CHAIN_KINDS[i]).collect());
+        }
+    }
+    let nseq = ipow(2, rounds);
+    par_cases(e, &all, budget, |kinds, e| {
+        let mut ends = vec![0usize; rounds];
+        for code in 0..nseq {
+            decode(code, 2, &mut ends);
+            e.executions += 1;
+            e.states += 1;
+            e.transitions += (rounds * kinds.len()) as u64;
+            e.max_depth = e.max_depth.max(rounds as u64);
+            if kinds.len() >= 2 {
+                e.nontrivial += 1;
+            }
+            let desc = || format!("chain {:?} issuing ends {:?}", kinds, ends);
+            let r = match guard(|| run_chain(kinds, &ends)) {
+                Ok(r) => r,
+                Err(m) => {
+                    e.violation("chain:panic", kinds.len(), || format!("{} panicked: {}", desc(), m));
+                    continue;
+                }
+            };
+            e.outcome(h64(&r));
+            let total: f64 = kinds.iter().map(|&k| forward_factor(k)).product();
+            for (k, (l, rr, inner)) in r.iter().enumerate() {
+                e.checks += 1;
+                let t = -30 + 10 * k as i64;
+                let (kindcode, v) = if k % 2 == 0 { (2u32, 3.0 + k as f64) } else { (1u32, -(1.0 + k as f64)) };
+                let (want_l, want_r) = if ends[k] == 0 { (v, v * total) } else { (v / total, v) };
+                let okc = |o: &Obs, want: f64| o.is_some() && o.time == t && o.bits[1] == kindcode && o.f(0) as f64 == want;
+                if !okc(l, want_l) || !okc(rr, want_r) {
+                    e.violation("chain:far-end", kinds.len(), || {
+                        format!("{}: round {} issued {} (kind {}) at time {} on the {} end; after updating the devices in order the left end reads {} and the right end reads {} (expected {} / {}, product of ratios {})", desc(), k, v, kindcode, t, if ends[k] == 0 { "left" } else { "right" }, l.show(), rr.show(), want_l, want_r, total)
+                    });
+                    break;
+                }
+                // every intermediate terminal carries the command scaled along the path
+                let mut acc = want_l;
+                let mut bad = false;
+                for (di, &kd) in kinds.iter().enumerate() {
+                    if !okc(&inner[2 * di], acc) {
+                        bad = true;
+                    }
+                    acc *= forward_factor(kd);
+                    if !okc(&inner[2 * di + 1], acc) {
+                        bad = true;
+                    }
+                }
+                if bad {
+                    e.violation("chain:intermediate", kinds.len(), || format!("{}: round {}: intermediate terminal reads {:?} are not the command scaled along the path", desc(), k, inner.iter().map(|x| x.show()).collect::<Vec<_>>()));
+                    break;
+                }
+            }
+        }
+        e.sample(|| format!("chain {:?} x all 2^{} issuing-end sequences", kinds, rounds));
+    });
+}
+
+fn state_engines(ctx: &Ctx, time_only: bool, tag: &str) -> Vec<Eng> {
+    let budget = Budget::secs(if ctx.thorough { 2500 } else { 150 });
+    let deep = ctx.thorough && !time_only;
+    let mut e1 = Eng::new(
+        &format!("{}-two-terminal", tag),
+        "Invert, GearTrain (ratios 1,-2,0.5,100,-0.01; raw and Quantity constructors): every subset of terminals connected to external terminals x all sequences of exactly `depth` rounds, a round giving each terminal one of {nothing, state A newest, state B newest, A at the round's shared time (ties), B older than the previous round} (times cross zero) and then calling update(); step-local oracle: own slots after update = least-squares projection of the states read at the terminals just before (f64 reference with error bound, exact where dyadic), stamped with the newest contributing time, uninformed/unaffected slots bit-identical, external slots never written; non-trivial = a round in which at least two terminals had data",
+        "",
+    );
+    let d2 = if deep { 4 } else { 3 };
+    let mut kinds = vec![Kind::Invert];
+    kinds.extend(gear_kinds());
+    for &k in &kinds {
+        explore(&mut e1, k, d2, Mode::State, time_only, budget);
+        explore_sparse(&mut e1, k, if deep { 3 } else { 2 }, Mode::State, time_only, budget);
+    }
+    e1.bounds = format!("depth {} => 25^{} round sequences x 4 connection subsets x 7 devices; plus all 8-round sequences with <= {} non-empty rounds", d2, d2, if deep { 3 } else { 2 });
+    let mut e2 = Eng::new(
+        &format!("{}-axle-differential", tag),
+        "Axle<N> for N=0..6 and Differential in all four trust modes, same round alphabet and oracle (axle: mean over terminals with data written to all; differential: distrusted branch recomputed from the other two, equal trust = Lagrange solution, nothing happens until every trusted branch has data)",
+        "",
+    );
+    let d3 = if deep { 3 } else { 2 };
+    for n in 0..=6usize {
+        let depth = match n {
+            0 | 1 => 4,
+            2 => d2,
+            3 => d3,
+            4 => if deep { 2 } else { 1 },
+            _ => 1,
+        };
+        explore(&mut e2, Kind::Axle(n), depth, Mode::State, time_only, budget);
+    }
+    for m in 0..4u8 {
+        explore(&mut e2, Kind::Diff(m), d3, Mode::State, time_only, budget);
+        if deep {
+            explore_sparse(&mut e2, Kind::Diff(m), 2, Mode::State, time_only, budget);
+        }
+    }
+    e2.bounds = format!("3-terminal devices: depth {} (125^{} round sequences x 8 connection subsets); axles N=4: depth {}, N=5,6: depth 1 (5^N options x 2^N subsets)", d3, d3, if deep { 2 } else { 1 });
+    vec![e1, e2]
+}
+
+fn command_engines(ctx: &Ctx, time_only: bool, tag: &str) -> Vec<Eng> {
+    let budget = Budget::secs(if ctx.thorough { 2500 } else { 150 });
+    let deep = ctx.thorough && !time_only;
+    let mut e1 = Eng::new(
+        &format!("{}-devices", tag),
+        "Invert, GearTrain (5 ratios), Axle<1..6>, Differential (4 modes): every connection subset x all sequences of exactly `depth` rounds, a round giving each terminal one of {nothing, command A newest, command B (other kind) newest, A at the shared time (ties), B old} then update(); oracle: afterwards every device terminal and every connected external terminal reads a newest issued command (ties: any newest) with the issuer's time and kind, value negated / multiplied / divided by the ratio / unchanged according to the path; a differential never alters command slots; non-trivial = at least two terminals held a command",
+        "",
+    );
+    let d2 = if deep { 4 } else { 3 };
+    let mut kinds = vec![Kind::Invert];
+    kinds.extend(gear_kinds());
+    for &k in &kinds {
+        explore(&mut e1, k, d2, Mode::Command, time_only, budget);
+        explore_sparse(&mut e1, k, if deep { 3 } else { 2 }, Mode::Command, time_only, budget);
+    }
+    let d3 = if deep { 3 } else { 2 };
+    for n in 1..=6usize {
+        let depth = match n {
+            1 => 4,
+            2 => d2,
+            3 => d3,
+            4 => if deep { 2 } else { 1 },
+            _ => 1,
+        };
+        explore(&mut e1, Kind::Axle(n), depth, Mode::Command, time_only, budget);
+    }
+    for m in 0..4u8 {
+        explore(&mut e1, Kind::Diff(m), d3, Mode::Command, time_only, budget);
+    }
+    e1.bounds = format!("2-terminal devices depth {}, 3-terminal depth {}, axles 4..6 shallower; plus 8-round sequences with few non-empty rounds", d2, d3);
+    vec![e1]
+}
+
+pub fn run(ctx: &Ctx, commands: bool) -> Vec<Eng> {
+    if !commands {
+        let mut v = state_engines(ctx, false, "c08");
+        let mut e3 = Eng::new(
+            "c08-tooth-lists",
+            "GearTrain::new for every tooth list of length 2..6 over {10,20,45}: a state set on side 1 propagates to side 2 multiplied by first/last with sign (-1)^(gears-1); non-trivial = first and last tooth counts differ",
+            "3^2+...+3^6 = 1089 lists",
+        );
+        tooth_lists(&mut e3);
+        v.push(e3);
+        v
+    } else {
+        let mut v = command_engines(ctx, false, "c13");
+        let budget = Budget::secs(if ctx.thorough { 1500 } else { 100 });
+        let (ml, rounds) = if ctx.thorough { (5, 8) } else { (4, 6) };
+        let mut e2 = Eng::new(
+            "c13-chains",
+            "every chain of 1..L devices from {Invert, Gear(2), Gear(-1/2), Axle<2>} joined by connect(), external terminals at both ends, x every sequence of R rounds each issuing a fresh command (alternating kinds) at the left or right end and updating the devices in order from the issuing end; afterwards both ends and every intermediate terminal must read the command scaled by the product of the ratios along the path (exact: ratios are powers of two); non-trivial = chain of at least two devices",
+            &format!("L={} ({} chains) x 2^{} issuing-end sequences", ml, (1..=ml).map(|l| ipow(4, l)).sum::<u64>(), rounds),
+        );
+        chains(&mut e2, ml, rounds, budget);
+        v.push(e2);
+        v
+    }
+}
+
+pub fn run_time_mode(ctx: &Ctx) -> Vec<Eng> {
+    let quick = Ctx { thorough: false, seed: ctx.seed, trace: false };
+    let mut v = state_engines(&quick, true, "c03-device-state-timestamps");
+    v.extend(command_engines(&quick, true, "c03-device-command-timestamps"));
+    v
 }
